@@ -299,6 +299,67 @@ theorem step_inv {P : Tree T → Prop} (hP : ShapeInv I P) (ts : List (Tree T)) 
     split at hr
     · simp only [Option.some.injEq] at hr; subst hr; exact herase i h
     · cases hr
+  | moveAt i k j pos p =>
+    simp only [stepM] at hr
+    split at hr
+    · rename_i t u0 hti htj
+      have hrem : P (removeAt I t k).2 := by
+        obtain ⟨a1, a2⟩ := hP.splitAt t k (hget hti)
+        obtain ⟨_, b2⟩ := hP.splitAt _ 1 a2
+        have := hP.merge _ _ a1 b2
+        simp only [removeAt]
+        split <;> exact this
+      have h1 : ∀ t' ∈ ts.set i (removeAt I t k).2, P t' := hset i hrem
+      split at hr
+      · simp only [Option.some.injEq] at hr; subst hr; exact h1
+      · split at hr
+        · rename_i u huj
+          simp only [Option.some.injEq] at hr; subst hr
+          obtain ⟨s1, s2⟩ := hP.splitAt u pos (h1 _ (List.mem_of_getElem? huj))
+          intro t' ht'
+          rcases List.mem_or_eq_of_mem_set ht' with h' | h'
+          · exact h1 t' h'
+          · exact h' ▸ hP.merge _ _ (hP.merge _ _ s1 (hP.single _ p)) s2
+        · cases hr
+    · cases hr
+  | takeAt i k p =>
+    simp only [stepM] at hr
+    split at hr
+    · rename_i t hti
+      have hrem : P (removeAt I t k).2 := by
+        obtain ⟨a1, a2⟩ := hP.splitAt t k (hget hti)
+        obtain ⟨_, b2⟩ := hP.splitAt _ 1 a2
+        have := hP.merge _ _ a1 b2
+        simp only [removeAt]
+        split <;> exact this
+      split at hr
+      · simp only [Option.some.injEq] at hr; subst hr; exact hset i hrem
+      · simp only [Option.some.injEq] at hr; subst hr; exact hpush (hset i hrem) (hP.single _ _)
+    · cases hr
+  | dup i w p =>
+    simp only [stepM] at hr
+    split at hr
+    · rename_i t hti
+      split at hr
+      · simp only [Option.some.injEq] at hr; subst hr
+        refine hpush (hset i (hP.skel _ _ (skel_pick I w t) (hget hti))) ?_
+        cases (pick I w t).1 with
+        | none => exact hP.nil
+        | some it => exact hP.single it p
+      · simp only [Option.some.injEq] at hr; subst hr; exact hpush h hP.nil
+    · cases hr
+  | collect2 i j =>
+    simp only [stepM] at hr
+    split at hr
+    · cases hr
+    · split at hr
+      · rename_i a b hti htj
+        simp only [Option.some.injEq] at hr; subst hr
+        intro t' ht'
+        rcases List.mem_or_eq_of_mem_set ht' with h' | h'
+        · exact hset i (hP.skel _ _ (skel_collect I a) (hget hti)) t' h'
+        · exact h' ▸ hP.skel _ _ (skel_collect I b) (hget htj)
+      · cases hr
 
 theorem run_inv {P : Tree T → Prop} (hP : ShapeInv I P) (ops : List (Op E M V)) (ts : List (Tree T))
     (h : ∀ t ∈ ts, P t) : ∀ r : List (Tree T) × List (Obs E G), runM I ts ops = some r → ∀ t ∈ r.1, P t := by
@@ -533,6 +594,113 @@ theorem step_prios (hI : Lawful I) (ts : List (Tree T)) (op : Op E M V) (hwf : A
       simp only [Option.some.injEq] at hr; subst hr
       simp [hti, map_eraseIdx]
     · cases hr
+  | moveAt i k j pos p =>
+    simp only [stepM] at hr
+    simp only [stepP, List.getElem?_map]
+    split at hr
+    · rename_i t u0 hti htj
+      have ht := hwf.get hti
+      have hpr := prios_removeAt I hI t k ht
+      have hlen : (prios t).length = (seq I t).length := by rw [prios_length, seq_length]
+      have hwf1 : AllWF I (ts.set i (removeAt I t k).2) := hwf.set i (removeAt_spec I hI t k ht).2.2
+      simp only [hti, htj, Option.map_some]
+      split at hr
+      · rename_i e he
+        simp only [Option.some.injEq] at hr; subst hr
+        have hk : ¬ k < (prios t).length := by
+          intro hk
+          obtain ⟨it, hit⟩ := (removeAt_ok_iff I hI t k ht).2 (hlen ▸ hk)
+          rw [hit] at he; cases he
+        rw [if_neg hk]
+        have : prios (removeAt I t k).2 = prios t := by
+          rw [hpr, List.eraseIdx_of_length_le (by omega)]
+        simp [map_set_same prios ts i t _ hti this]
+      · rename_i it hit
+        have hk : k < (prios t).length := hlen ▸ (removeAt_ok_iff I hI t k ht).1 ⟨it, hit⟩
+        rw [if_pos hk]
+        have hmap1 : (ts.map prios).set i ((prios t).eraseIdx k) = (ts.set i (removeAt I t k).2).map prios := by
+          rw [List.map_set, hpr]
+        split at hr
+        · rename_i u huj
+          simp only [Option.some.injEq] at hr; subst hr
+          simp only [hmap1, List.getElem?_map, huj, Option.map_some]
+          simp [List.map_set, prios_insertAt I hI u pos it p (hwf1.get huj)]
+        · cases hr
+    · cases hr
+  | takeAt i k p =>
+    simp only [stepM] at hr
+    simp only [stepP, List.getElem?_map]
+    split at hr
+    · rename_i t hti
+      have ht := hwf.get hti
+      have hpr := prios_removeAt I hI t k ht
+      have hlen : (prios t).length = (seq I t).length := by rw [prios_length, seq_length]
+      simp only [hti, Option.map_some]
+      split at hr
+      · rename_i e he
+        simp only [Option.some.injEq] at hr; subst hr
+        have hk : ¬ k < (prios t).length := by
+          intro hk
+          obtain ⟨it, hit⟩ := (removeAt_ok_iff I hI t k ht).2 (hlen ▸ hk)
+          rw [hit] at he; cases he
+        rw [if_neg hk]
+        have : prios (removeAt I t k).2 = prios t := by
+          rw [hpr, List.eraseIdx_of_length_le (by omega)]
+        simp [map_set_same prios ts i t _ hti this]
+      · rename_i it hit
+        simp only [Option.some.injEq] at hr; subst hr
+        have hk : k < (prios t).length := hlen ▸ (removeAt_ok_iff I hI t k ht).1 ⟨it, hit⟩
+        rw [if_pos hk]
+        simp [List.map_set, hpr, single, prios]
+    · cases hr
+  | dup i w p =>
+    simp only [stepM] at hr
+    simp only [stepP, List.getElem?_map]
+    split at hr
+    · rename_i t hti
+      have ht := hwf.get hti
+      have hsz : size I t = (prios t).length := size_eq_prios I t ht
+      simp only [hti, Option.map_some]
+      split at hr
+      · rename_i hle
+        simp only [Option.some.injEq] at hr; subst hr
+        have hps : prios (pick I w t).2 = prios t := prios_of_skel_eq (skel_pick I w t)
+        have hit : prios (ofItem? (pick I w t).1 p) = if (prios t).length = 1 then [p] else [] := by
+          rw [hsz] at hle
+          have hc : (seq I t).length ≤ 1 := by rw [seq_length, ← prios_length]; exact hle
+          have hq := (pick_spec I hI w t ht hc p).2.2.2.1
+          have hl2 : (prios (ofItem? (pick I w t).1 p)).length = (prios t).length := by
+            rw [prios_length, prios_length, ← seq_length I, hq, seq_length]
+          cases ho : (pick I w t).1 with
+          | none =>
+            rw [ho] at hl2
+            simp only [ofItem?, prios, List.length_nil] at hl2
+            rw [if_neg (by omega)]; rfl
+          | some it =>
+            rw [ho] at hl2
+            simp only [ofItem?, single, prios, List.nil_append, List.length_cons, List.length_nil] at hl2
+            rw [if_pos (by omega)]; rfl
+        simp [map_set_same prios ts i t _ hti hps, hit]
+      · rename_i hgt
+        simp only [Option.some.injEq] at hr; subst hr
+        rw [hsz] at hgt
+        simp [prios, show ¬ (prios t).length = 1 by omega]
+    · cases hr
+  | collect2 i j =>
+    simp only [stepM] at hr
+    simp only [stepP, List.getElem?_map]
+    split at hr
+    · cases hr
+    · rename_i hij
+      split at hr
+      · rename_i a b hti htj
+        simp only [Option.some.injEq] at hr; subst hr
+        have htj' : (ts.set i (collect I a).2)[j]? = some b := by
+          rw [List.getElem?_set, if_neg hij]; exact htj
+        simp only [hij, if_false, hti, htj, Option.map_some]
+        rw [map_set_same prios _ j b _ htj' (prios_of_skel_eq (skel_collect I b)),
+          map_set_same prios ts i a _ hti (prios_of_skel_eq (skel_collect I a))]
+      · cases hr
 
 /-- whole histories: the priority lists of the live treaps are `runP` of the operations and the
     observations the run produced -/
